@@ -35,15 +35,29 @@ func drawScenario(t *rapid.T, filter func(*scenario) bool) *scenario {
 			pool = append(pool, sc)
 		}
 	}
-	return pool[rapid.IntRange(0, len(pool)-1).Draw(t, "scenario")]
+	return pool[pick(t, "scenario", len(pool))]
+}
+
+// pick draws an index in [0, n) with a flat distribution: rapid's integer generators favour
+// small values and range bounds (measured: the first scenario of the pool was drawn in 45 % of
+// the cases), which is right for sizes but wrong for a choice among equals. The drawn 64-bit
+// value is mixed (splitmix64 finaliser) before the reduction; the case stays a function of the draw.
+func pick(t *rapid.T, label string, n int) int {
+	x := rapid.Uint64().Draw(t, label)
+	x ^= x >> 30
+	x *= 0xbf58476d1ce4e5b9
+	x ^= x >> 27
+	x *= 0x94d049bb133111eb
+	x ^= x >> 31
+	return int(x % uint64(n))
 }
 
 func drawCase(t *rapid.T, filter func(*scenario) bool) caseParams {
 	sc := drawScenario(t, filter)
 	c := caseParams{sc: sc}
-	c.pos = rapid.IntRange(0, len(sc.positions)-1).Draw(t, "position")
-	c.ctxSeed = rapid.SampledFrom([]uint64{1, 2, 3}).Draw(t, "ctxSeed") // small on purpose: sessions are reused
-	c.msgIdx = rapid.IntRange(0, len(sc.msgs)-1).Draw(t, "message")     // small on purpose: messages are reused
+	c.pos = pick(t, "position", len(sc.positions))
+	c.ctxSeed = uint64(1 + pick(t, "ctxSeed", 3)) // small on purpose: sessions are reused
+	c.msgIdx = pick(t, "message", len(sc.msgs))   // small on purpose: messages are reused
 	c.base = rapid.Uint64().Draw(t, "baseSeed")
 	c.alt = rapid.Uint64().Draw(t, "replacementSeed")
 	return c
@@ -71,7 +85,7 @@ func TestStarvedReader(t *testing.T) {
 	const test = "StarvedReader"
 	vlib.Check(t, 90, func(t *rapid.T) {
 		c := drawCase(t, nil)
-		mode := rapid.SampledFrom(starveModes).Draw(t, "mode")
+		mode := starveModes[pick(t, "mode", len(starveModes))]
 		frac := rapid.Float64Range(0, 0.999).Draw(t, "fraction")
 		classes := checkStarved(t, test, c, mode, frac)
 		vlib.Case(test, vlib.Desc(c.sc.name, c.pos, "starved", mode), true, classes...)
